@@ -127,6 +127,26 @@ Fixpoint trie_leaves (rfc : bool) (t : trie) (K0 : list (str * str)) : list (fpa
       cs
   end.
 
+(* only the key leaves among trie_leaves: per list entry, its keys as strings unless a valued leaf restates them *)
+Fixpoint key_leaves (rfc : bool) (t : trie) (K0 : list (str * str)) : list (fpath * gov) :=
+  match t with
+  | TLeaf _ => []
+  | TNode cs =>
+    map (fun kv => ([(fst kv, [])], GStr (snd kv))) (filter (fun kv => negb (overridden rfc cs (fst kv))) K0) ++
+    flat_map
+      (fun et =>
+         match snd et with
+         | TLeaf _ => []
+         | TNode _ =>
+           match classify (fst et) with
+           | EPlain => map (pre (fst et, [])) (key_leaves rfc (snd et) [])
+           | EKeyed n K => map (pre (n, K)) (key_leaves rfc (snd et) K)
+           | EBad => []
+           end
+         end)
+      cs
+  end.
+
 (* ------------------------------------------------------------------ well-formedness *)
 
 Fixpoint list_eqb (a b : list str) : bool :=
